@@ -2424,6 +2424,11 @@ class TaskPool:
             except KeyError:
                 continue
             else:
+                # Keep the DB and the data store in step with the pool:
+                self.workflow_db_mgr.remove_task_from_flows(
+                    str(itask.point), itask.tdef.name, {flow_num}
+                )
+                self.data_store_mgr.delta_task_flow_nums(itask)
                 if (
                     not itask.state(
                         *TASK_STATUSES_ACTIVE, TASK_STATUS_PREPARING)
